@@ -14,6 +14,9 @@ import (
 
 const verifDir = "/verif"
 
+// outDir receives evidence/ and replays/: /verif, or a scratch directory for seeded-change corpus runs (GOVC_OUT)
+var outDir = envOr("GOVC_OUT", verifDir)
+
 type FuncClaim struct {
 	Key     string
 	NoPanic bool // every panic obligation of this function is claimed (must discharge)
@@ -30,6 +33,7 @@ type PropDef struct {
 	LevelText   string
 	LevelNote   string
 	Technique   string
+	LockEntries bool // also verify every function that received the default lock entry contract (autoLockEntries)
 }
 
 type KnownFinding struct {
@@ -157,6 +161,13 @@ func runProperty(p *Prog, def *PropDef, opts checkOpts) *propRun {
 		run.results = append(run.results, r)
 		all = append(all, r.Obls...)
 	}
+	if def.LockEntries {
+		for _, k := range p.AutoEntries {
+			r := verifyFunc(p, k)
+			run.results = append(run.results, r)
+			all = append(all, r.Obls...)
+		}
+	}
 	for _, sw := range def.Sweeps {
 		sr := runSweep(p, sw)
 		run.sweepRes = append(run.sweepRes, sr)
@@ -220,7 +231,7 @@ func report(p *Prog, run *propRun, opts checkOpts, diags []string, wall time.Dur
 	var lines []string
 	var undecided []string
 	var kfSeen []string
-	replayDir := filepath.Join(verifDir, "replays", id)
+	replayDir := filepath.Join(outDir, "replays", id)
 	violate := func(o *Obligation, name, why string) {
 		violations++
 		os.MkdirAll(replayDir, 0o755)
@@ -292,7 +303,9 @@ func report(p *Prog, run *propRun, opts checkOpts, diags []string, wall time.Dur
 			continue
 		}
 		o := cur[n]
-		isPanic := strings.Contains(n, "#panic")
+		// obligations attached to an expression of the code (not to a contract clause): when the expression is gone
+		// -- moved into a helper, removed -- there is nothing left to prove at that site
+		isPanic := strings.Contains(n, "#panic") || strings.Contains(n, "#guard.") || strings.Contains(n, "#lock.")
 		if o == nil {
 			if isPanic {
 				continue // the expression no longer exists
@@ -483,9 +496,9 @@ func writeEvidence(run *propRun, opts checkOpts, claimed, discharged, violations
 		"wall_s":      wall.Seconds(),
 		"violations":  violations,
 	}
-	os.MkdirAll(filepath.Join(verifDir, "evidence"), 0o755)
+	os.MkdirAll(filepath.Join(outDir, "evidence"), 0o755)
 	b, _ := json.MarshalIndent(ev, "", " ")
-	os.WriteFile(filepath.Join(verifDir, "evidence", def.ID+".json"), b, 0o644)
+	os.WriteFile(filepath.Join(outDir, "evidence", def.ID+".json"), b, 0o644)
 }
 
 // cmdBaseline regenerates baseline/obligations.json from the current tree (run by hand on the pinned tree only).
